@@ -77,6 +77,7 @@ package dns
 //@   ghost lw0 at "window := t / 256" lastwindow
 //@   ghost ll0 at "window := t / 256" lastlength
 //@   ghost o0 at "window := t / 256" off
+//@   assert after "lastwindow, lastlength = window, length" stone: t == bitmap[rangeindex + 1] && !bmskip(t, lw0, ll0) && lastwindow == bmlw(t) && lastlength == bmln(t) && off - old(off) == (bmnw(t, lw0, ll0) ? o0 - old(off) + ll0 + 2 : o0 - old(off)) [C08 C01]
 //@   assert after "lastwindow, lastlength = window, length" unfold: bml(bitmap, rangeindex + 1, lw0, ll0, o0 - old(off)) == bml(bitmap, rangeindex + 2, lastwindow, lastlength, off - old(off)) [C08 C01]
 //@   loop 1 invariant fold: bml(bitmap, rangeindex + 1, lastwindow, lastlength, off - old(off)) == bml(bitmap, 0, 0, 0, 0) && -1 <= rangeindex && rangeindex < len(bitmap) [C08 C01]
 //@   writes msg
